@@ -85,6 +85,20 @@ theorem read_write (ks : Bytes → Bytes → Nat → UInt8) (s : Stream) (ws chu
   rw [readAll_eq_writeAll, writeAll_xor, h, writeAll_xor]
   exact xorStream_invol _ _ _
 
+theorem readOne_eq (X : Cipher) (s : Stream) (c : Bytes) (f : Bool) : readOne X s c f = s.xor X c := by
+  have h : Facts.C18.readDecryptsWithError = true := by decide
+  simp [readOne, h]
+
+theorem readAllE_eq (X : Cipher) (e : Bool) : ∀ (cs : List Bytes) (s : Stream), readAllE X e s cs = readAll X s cs := by
+  intro cs
+  induction cs with
+  | nil => intro s; rfl
+  | cons c cs ih =>
+    intro s
+    cases cs with
+    | nil => simp [readAllE, readAll, readOne_eq]
+    | cons d ds => simp only [readAllE, readAll, readOne_eq, ih]
+
 /-! ### The header -/
 
 theorem mid_of_prefix (a b : Bytes) (ha : a.length = 56) : ((a ++ b).drop 8).take 48 = (a.drop 8).take 48 := by
